@@ -5,3 +5,4 @@ pub mod rel;
 pub mod ecorder;
 pub mod smooth;
 pub mod ec;
+pub mod linalg;
